@@ -110,6 +110,15 @@ def c02(ctx):
     return [Native("faults", "c02")]
 
 
+def c03(ctx):
+    return [SelfTest(), Native("differential", "c03")]
+
+
+def c04(ctx):
+    return [Native("hostile-native", "c04", crash_sig="C04|process|abort-or-signal", timeout=7200,
+                   note="monitor profile (release + debug assertions + overflow checks), catch_unwind per case, process status per shard")]
+
+
 PROPS = {
     "C01": {
         "level": "exploration",
@@ -133,5 +142,22 @@ PROPS = {
         "assumptions": [
             "ECDSA (r, n-s) malleation is not among the property's corruptions and is not asserted",
         ],
+    },
+    "C03": {
+        "level": "exploration",
+        "level_text": "Differential monitor: for thousands of seeded (key, nonce, payload, footer, assertion) tuples per backend the token produced with a caller-supplied nonce is compared byte for byte with a reference model written from the published algorithms on the other primitive family (RustCrypto backends against aws-lc/libsodium primitives and vice versa); randomized signatures are checked by an independent verifier, tokens from an independent signer and reference-built tokens (incl. v1 counter blocks that wrap 64 bits) are offered to the library, and sibling backends are compared with each other on every case.",
+        "level_note": "Trusted: the reference models (self-tested against every official vector on each run; a failing self-test makes the run inconclusive) and the two primitive libraries not both being wrong in the same way. Derived counter blocks near 2^64 cannot be reached black-box (listed as unexplored).",
+        "technique": "runtime differential monitor against an independent reference model and sibling backends",
+        "stages": c03,
+        "floor": {"quick": 15000, "thorough": 300000},
+        "assumptions": ["the reference model is the specification as far as the official vectors and the published algorithm text determine it; AES-CTR uses a 128-bit big-endian counter as in OpenSSL"],
+    },
+    "C04": {
+        "level": "exploration",
+        "level_text": "Hostile-input monitor: hundreds of thousands of generated strings (every header variant x every decoded length 0..700, mutated valid serialisations and official vectors, degenerate P-384/Ed25519/RSA encodings, multibyte UTF-8) are offered to all 22 FromStr/Deserialize instantiations of all six backends; whatever parses is displayed, identified, cloned and used for sealing, unsealing, wrapping, unwrapping and key sealing. Observed: panics (catch_unwind with location), process aborts/signals, and sanitizer reports (Miri on the RustCrypto backends, valgrind memcheck with leak checking on the aws-lc/libsodium backends in the thorough tier).",
+        "level_note": "Trusted: catch_unwind + child-process exit status as the observation of panics/aborts; Miri and memcheck see only the paths the workload drives. PBKW blobs beyond the stated budget (64 MiB / 3 passes / 10000 iterations) are skipped and counted.",
+        "technique": "runtime no-panic monitor over hostile generated inputs, plus Miri and valgrind memcheck on the same workload",
+        "stages": c04,
+        "floor": {"quick": 100000, "thorough": 1000000},
     },
 }
